@@ -1,7 +1,7 @@
 # C16 — configuration precedence: command line over environment over defaults (structural part; DESIGN.md §5 C16)
 import re
 from engine.core import AnalysisBroken, P, T, callee_of, callee_short, cond_atoms, loc_of, strip, subexprs, block_path
-from engine.kinds import FactFlow, precedes_on_all_paths, eval_walk, cond_leaves
+from engine.kinds import FactFlow, precedes_on_all_paths, eval_walk, cond_leaves, CountFlow, loop_of
 from .common import facts, lib
 
 EXPLANATION = (
@@ -18,7 +18,7 @@ EXPLANATION = (
     "option occurs both in PIKA_COMMANDLINE_OPTIONS and on the command line.")
 ASSUMPTIONS = ["program_options::variables_map::count(k) > 0 iff option k was given", "${ENV:default} placeholders in the default ini are expanded by the ini module from the environment"]
 THOROUGH_CONFIGS = [["-UNDEBUG", "-DPIKA_DEBUG"]]
-FLOORS = {"C16.R1": 11, "C16.R2": 10, "C16.R3": 8, "C16.R4": 3}
+FLOORS = {"C16.R1": 11, "C16.R2": 10, "C16.R3": 8, "C16.R4": 3, "C16.R6": 1, "C16.R7": 1}
 
 SETTINGS = [  # (command line option, ini key, environment variable, handler)
     ("pika:threads", "pika.os_threads", "PIKA_THREADS", "handle_num_threads"),
@@ -59,6 +59,10 @@ def run(rep, tier):
     rep.rule("C16.R2", "K4/K8: handlers: count key == value key; command-line value iff present, configuration value otherwise; invalid values throw")
     rep.rule("C16.R3", "K2: --pika:ini merged before the handlers; every resolved value written back after its handler")
     rep.rule("C16.R5", "K8 (writer/reader agreement): the stack-size defaults the configuration writes (hexadecimal literals) are parsed by a reader that accepts that notation; a value that does not parse is not replaced silently by a different number")
+    rep.rule("C16.R6", "K2/K8: precedence between PIKA_COMMANDLINE_OPTIONS and the command line: the two token sources are not handed to one parser run as a plain "
+             "concatenation while single-valued options exist (one run rejects a repeated single-valued option instead of letting the command line win)")
+    rep.rule("C16.R7", "K4 (must-check, may-analysis): the resolved worker count is the one the runtime uses - the resource partitioner's setup_pools reaches its exit only over the "
+             "'equal' edge of a comparison between the threads assigned to the pools and pika.os_threads (or with over-subscription allowed)")
     rep.rule("C16.R4", "K2: prepend_options puts PIKA_COMMANDLINE_OPTIONS before argv; preliminary parse + handle_arguments precede reconfigure")
 
     PC = facts(rep, lib("command_line_handling", "src/parse_command_line.cpp"), [r"^pika::detail::"])
@@ -423,6 +427,97 @@ def run(rep, tier):
         rep.ok("C16.R4", pre_name(pre), "the defaults feed PIKA_COMMANDLINE_OPTIONS into pika.commandline.prepend_options")
     else:
         rep.bad("C16.R4", "defaults", "", "env-prepend", "the default configuration no longer maps PIKA_COMMANDLINE_OPTIONS to pika.commandline.prepend_options")
+
+    # ---- R6: can a command-line option override the same option given in PIKA_COMMANDLINE_OPTIONS?
+    # program_options rejects a single-valued (non-composing) option that occurs twice in one parser run
+    # (multiple_occurrences); values stored first win across separate store() calls.  So the override works only if the
+    # two token sources are parsed separately or the prefix is filtered - not if the plain concatenation is parsed once.
+    single = set()
+    for fn in PC.fns:
+        for b, i, ev in fn.all_events():
+            if ev.get("k") == "call" and "options_description_easy_init" in callee_of(ev) and len(ev.get("args") or []) >= 2:
+                a0 = strip(ev["args"][0])
+                if a0.get("k") == "lit" and "s" in a0 and "value<" in T(ev["args"][1]) + str(strip(ev["args"][1]).get("type", "")) and "composing" not in T(ev["args"][1]):
+                    single.add(a0["s"].split(",")[0])
+    single_settings = sorted(o for o, _, _, _ in SETTINGS if o in single)
+    isvec = lambda q: "vector" in (q.get("type") or "") and "string" in (q.get("type") or "") and (q.get("type") or "").rstrip().endswith("&")
+    pcs = [f for f in PC.find(r"^pika::detail::parse_commandline$") if f.parent == -1 and any(isvec(q) for q in f.params)]
+    if len(pcs) != 1:
+        raise AnalysisBroken("parse_commandline(.., std::vector<std::string> const& args, ..) not found")
+    pcl = pcs[0]
+    AV = [q["name"] for q in pcl.params if isvec(q)][0]
+    parsers = [e for _, _, e in pcl.all_events() if (e.get("k") in ("ctor", "construct") and "command_line_parser" in str(e.get("rec", ""))) or
+               (e.get("k") == "call" and callee_short(e) in ("command_line_parser", "basic_command_line_parser"))]
+    if not parsers:
+        parsers = [x for _, _, e in pcl.all_events() for x in subexprs(e, lambda y: isinstance(y, dict) and y.get("k") == "construct" and "command_line_parser" in str(y.get("rec", "")))]
+    if not parsers:
+        raise AnalysisBroken("parse_commandline: no command_line_parser found")
+    whole = [e for e in parsers if e.get("args") and P(e["args"][0]) == AV]
+    # on each path exactly one parser run stores into vm?
+    stores = [(b, i, e) for b, i, e in pcl.all_events() if e.get("k") == "call" and callee_short(e) == "store"]
+    cfs = CountFlow(pcl, lambda ev, pos: 1 if any(ev is x[2] for x in stores) else 0)
+    one_run = len(whole) == len(parsers) and cfs.exits <= frozenset([0, 1])
+    # does call() hand the concatenation to it?
+    pc_calls = [e for _, _, e in call.all_events() if e.get("k") == "call" and callee_short(e) == "parse_commandline"]
+    pos_av = [n for n, q in enumerate(pcl.params) if q["name"] == AV][0]
+    concat_var = None
+    for _, _, e in call.all_events():
+        src = None
+        if e.get("k") == "call" and e.get("op") == "=" and e.get("args") and "prepend_options(" in T(e["args"][0]):
+            src = P(e["recv"])
+        elif e.get("k") == "write" and "prepend_options(" in T(e.get("rhs")):
+            src = P(e["lhs"])
+        elif e.get("k") == "decl" and e.get("init") is not None and "prepend_options(" in T(e["init"]):
+            src = e["var"]
+        if src:
+            concat_var = src
+    fed = concat_var is not None and pc_calls and all(len(e.get("args") or []) > pos_av and P(e["args"][pos_av]) == concat_var for e in pc_calls)
+    filters = [e for _, _, e in po.all_events() if e.get("k") == "call" and callee_short(e) in ("erase", "remove", "remove_if", "copy_if", "find", "find_if", "count", "count_if", "unique", "any_of", "none_of")]
+    has_loop = any(loop_of(po, b) is not None for b in po.blocks)
+    if not single_settings:
+        rep.ok("C16.R6", pcl, "no single-valued setting option is registered: repeated options accumulate")
+    elif filters or has_loop:
+        rep.ok("C16.R6", po, "prepend_options filters the configured prefix (%s): which tokens it drops is not decided here" % ", ".join(sorted({callee_short(e) for e in filters}) or ["loop"]))
+    elif not (one_run and fed):
+        rep.ok("C16.R6", call, "the configured prefix and the real command line are not parsed as one plain concatenation in a single parser run")
+    else:
+        rep.bad("C16.R6", call, loc_of(pc_calls[0]), "env-cmdline-single-parse",
+                "call() hands the plain concatenation [PIKA_COMMANDLINE_OPTIONS tokens] + [command line] (prepend_options does not filter) to parse_commandline, which parses "
+                "'%s' in one command_line_parser run and stores it once: a single-valued option (%d of the settings: %s ...) that occurs in both sources is rejected with "
+                "multiple_occurrences instead of the command line overriding the PIKA_COMMANDLINE_OPTIONS entry" % (AV, len(single_settings), ", ".join(single_settings[:3])))
+
+    # ---- R7: the resolved worker count is the one the runtime uses.  handle_arguments writes pika.os_threads; the
+    # resource partitioner derives the pools' thread counts from PU occupancies (one thread per PU without a binding),
+    # so the two can differ.  Every path through setup_pools (new helpers spliced) to a normal exit must take the
+    # 'equal' edge of a comparison of the assigned total with pika.os_threads, or the edge on which over-subscription
+    # is allowed (may-analysis: 'unchecked' must not reach the exit).  An assertion is not a check: it is compiled out.
+    RP = facts(rep, lib("resource_partitioner", "src/detail_partitioner.cpp"), [r"^pika::resource::detail::partitioner::(setup_pools|get_num_threads)$"])
+    sp = [f for f in RP.find(r"partitioner::setup_pools$") if f.parent == -1]
+    if len(sp) != 1:
+        raise AnalysisBroken("partitioner::setup_pools not found")
+    sp = sp[0]
+    osl = set()
+    for _, _, e in sp.all_events():
+        if e.get("k") == "decl" and e.get("init") is not None and "pika.os_threads" in T(e["init"]):
+            osl.add(e["var"])
+
+    def from_os_threads(atom):
+        return "pika.os_threads" in atom or any(re.search(r"(^|[^\w.>])%s($|[^\w])" % re.escape(v), atom) for v in osl)
+    seen_cmp = []
+
+    def discharges(atom, truth):
+        if " == " in atom and from_os_threads(atom):
+            seen_cmp.append(atom)
+            return truth
+        return "mode_allow_oversubscription" in atom and truth
+    from engine.kinds import unchecked_reaches_exit
+    at_exit = ["unchecked"] if unchecked_reaches_exit(sp, discharges) else []
+    if "unchecked" not in at_exit:
+        rep.ok("C16.R7", sp, "setup_pools returns only when the threads assigned to the pools equal pika.os_threads (%s) or over-subscription is allowed" % sorted(set(seen_cmp))[:1])
+    else:
+        rep.bad("C16.R7", sp, sp.loc, "thread-count-unchecked", "the thread pools are set up without comparing the number of threads assigned to them with the resolved pika.os_threads "
+                "(only an assertion in get_num_threads does, and it is compiled out): with --pika:bind=none every PU takes one thread, so --pika:threads=<#PUs + 1> "
+                "silently starts #PUs workers while the configuration reports #PUs + 1")
 
     # ---- R5: the reader of pika.stacks.*_size understands what the defaults table writes
     SS = facts(rep, lib("runtime_configuration", "src/runtime_configuration.cpp"), [r"runtime_configuration::init_(\w+_)?stack_size$"])
